@@ -1785,3 +1785,56 @@ def r08r(ctx, rep, rule="R08r"):
     (rep.ok if not bad else rep.fail)(
         rule, key, "Number::round uses neither Ratio::round nor f64::round" if not bad else
         "Number::round rounds with Ratio::round / f64::round, which take a tie away from zero: (round 5/2) is 3 instead of 2", bad)
+
+
+def r08s(ctx, rep, rule="R08s"):
+    """a variadic + or * does not round in the middle"""
+    facts, cg = ctx["facts"], ctx["cg"]
+    rep.rule(rule, "the order of the operands does not decide exactness: the binary operators fall back to a float when an exact "
+             "result does not fit the representation of its operands, and a variadic +, - or * that feeds such a float into its "
+             "next step keeps it although a later operand brings the result back into range — (* 1/65536 65536 65536) was "
+             "65536.0 and (* 65536 65536 1/65536) was 65536 — or turns an overflowed fallback into a NaN. The fold of plus, "
+             "minus and multiply (the procedure or the local helper its loop calls) therefore tests the result of a step on "
+             "exact operands for exactness (Number::is_exact on it) and owns an arbitrary-precision path (BigRational "
+             "arithmetic) for the steps that fail the test.")
+    n = 0
+    for nm in ("plus", "minus", "multiply"):
+        f = need(rep, rule, facts, "marwood::vm::builtin::number::" + nm)
+        if f is None:
+            continue
+        body = set()
+        for src, h in f.back_edges():
+            body |= (f.reach_from(h) & f.reach_back(src)) | {h, src}
+        scope = [f] + [facts.fns[callee(t)] for bb, t in f.calls() if bb in body and callee(t) in facts.fns and
+                       (callee(t) or "").startswith("marwood::vm::builtin::number::")]
+        steps, tests, wide = [], [], []
+        for g in scope:
+            for bb, t in g.calls():
+                c = callee(t) or ""
+                fa = t.get("fnargs") or ""
+                if re.search(r"number::Number as std::ops::(Add|Mul|Sub|AddAssign|MulAssign|SubAssign)", fa or c):
+                    steps.append((g, bb, t))
+                if c == "marwood::number::Number::is_exact":
+                    tests.append((g, bb, t))
+                if re.search(r"Ratio<(num::)?(bigint::)?BigInt>", fa) and re.search(r"std::ops::(Add|Mul|Sub)\b", fa):
+                    wide.append((g, bb, t))
+        n += 1
+        key = "%s|%s|exactness-watched" % (rule, nm)
+        watched = False
+        for g, bb, t in tests:
+            o = g.origin(t["args"][0]) if t["args"] else None
+            if o is not None and o[0] == "rv" and o[1]["rv"]["k"] == "ref":
+                o = g.origin({"copy": o[1]["rv"]["place"]})
+            if o is not None and o[0] == "call" and re.search(r"std::ops::(Add|Mul|Sub)", (o[1].get("fnargs") or callee(o[1]) or "")):
+                watched = True
+            if o is not None and o[0] == "local":
+                for d in g.defs().get(o[1], []):
+                    if d[2] == "call" and re.search(r"std::ops::(Add|Mul|Sub)", (d[3].get("fnargs") or callee(d[3]) or "")):
+                        watched = True
+        ok = bool(steps) and watched and bool(wide)
+        (rep.ok if ok else rep.fail)(
+            rule, key, "%s tests each step's result for exactness and recomputes in arbitrary precision" % nm if ok else
+            "%s folds with the binary operators and keeps whatever they return (steps: %d, exactness tests on a step's result: %s, "
+            "arbitrary-precision operations: %d): a float fallback in the middle of the fold stays, so the result depends on the order "
+            "of the operands" % (nm, len(steps), watched, len(wide)), [f.span])
+    rep.floor(rule, "variadic arithmetic folds", n, 3)
